@@ -9,7 +9,7 @@ def run(ctx):
     cov, viol, samples = shm.run_sched(ctx, b, "C03", 60000 if q else 1500000)
     ctx.log("sched: %d scenarios, %d distinct, %d idle-window calls" % (cov["scenarios"], cov["distinct_schedules"], cov["idle_calls"]))
     parts = shm.run_single(ctx, b, ["c03long", "--seed", str(ctx.seed), "--rounds", "4" if q else "60", "--signals", "1" if q else "2"], NPROC, 1800)
-    lng = {"evaluations": 0, "idle_calls": 0, "wrap_crossings": 0, "exception_cases": 0, "distinct": 0, "sparse_change_checks": 0}
+    lng = {"evaluations": 0, "idle_calls": 0, "wrap_crossings": 0, "exception_cases": 0, "distinct": 0, "sparse_change_checks": 0, "cold_restarts_with_attached_reader": 0}
     lsamples = []
     lost = 0
     viol_crash = shm.crash_violations(parts)
@@ -42,7 +42,7 @@ def run(ctx):
         "distinct_nontrivial": cov["distinct_schedules"] + lng["distinct"],
         "rule": "sched: seeded scenarios under the token scheduler, distinct = distinct interleaving traces with an overlapped call or an observed publication change; "
                 "c03long: sequential histories (start generation x number of publications slept through in {1,2,3,100,32765..32769,65533..65535,98301}), distinct = distinct (start generation, sleep) pairs; "
-                "sparse histories: consecutive publications differing in one field only, attached and fresh readers compared by full equality; oracles: per-reader indices never decrease; a call whose whole window had no update in flight returns the latest completed publication (exempt: slept through a positive multiple of 32767)",
+                "cold restarts: a reader attached before the header is damaged in place (6 kinds x 3 generations), the daemon restarted over it through the re-initialisation path, four publications, attached and fresh readers compared after each; sparse histories: consecutive publications differing in one field only, attached and fresh readers compared by full equality; oracles: per-reader indices never decrease; a call whose whole window had no update in flight returns the latest completed publication (exempt: slept through a positive multiple of 32767)",
         "samples": samples[:2] + lsamples[:2] + [{"miri": s} for s in msamples[:1]],
         "sched": cov,
         "long_histories": lng,
